@@ -921,6 +921,11 @@ def expand(
                 # Create a subquery with the same alias (or table name if no alias)
                 parsed_source = source() if callable(source) else source
                 subquery = parsed_source.subquery(node.alias or name)
+                table_alias = node.args.get("alias")
+                alias_columns = table_alias.args.get("columns") if table_alias else None
+                if alias_columns:
+                    # keep a column-list alias: `x AS z(a, b)` -> `(...) AS z(a, b)`
+                    subquery.args["alias"].set("columns", [c.copy() for c in alias_columns])
                 subquery.comments = [f"source: {name}"]
 
                 # Continue expanding within the subquery
